@@ -37,6 +37,17 @@ def workload(rng, n):
             c = t.gen_case(rng, version=v, profile=rng.choice(["none", "few"]), keylen=16, mask=None)
             c["kbpk"] = shared_kbpks[len(kb_cache) % 2]      # two KBPKs (16 / 24 bytes) shared by blocks of every version
             kb_cache.append((c["kbpk"], tr31.wrap(c["kbpk"], t.impl_header(c), c["key"])))
+    # rare data-dependent branches (second decimalisation pass of CVV / PVV): corpus inputs, several of each in one process
+    import json
+    import os
+    for name, fn in (("C09.json", "generate_cvv"), ("C10.json", "generate_visa_pvv")):
+        cp = os.path.join(fw.VERIF, "corpus", name)
+        corpus = json.load(open(cp)) if os.path.exists(cp) else []
+        for w in rng.sample(corpus, min(len(corpus), 12)):
+            if fn == "generate_cvv":
+                items.append((fn, (bytes.fromhex(w["cvk"]), w["pan"], w["expiry"], w["service_code"])))
+            else:
+                items.append((fn, (bytes.fromhex(w["pvk"]), w["pvki"], w["pin"], w["pan"])))
     while len(items) < n:
         k = rng.randrange(16)
         if k == 0:
@@ -79,13 +90,19 @@ def workload(rng, n):
             items.append(("odd_parity", (rng.getrandbits(32),)))
         elif k in (12, 13, 14):
             kbpk, kb = rng.choice(kb_cache)
-            if rng.random() < 0.3:
+            r_ = rng.random()
+            if r_ < 0.3:
                 p = rng.randrange(len(kb))
                 kb = kb[:p] + rng.choice("0123456789ABCDEF") + kb[p + 1:]
+            elif r_ < 0.4:
+                # rejected inside the optional-block section (after the mandatory fields were read), at the count test, at the length test
+                kb = rng.choice([kb[:12] + "09" + kb[14:], kb[:12] + "0X" + kb[14:], kb[:18] + "FF" + kb[20:], kb[:16] + "**" + kb[18:],
+                                 kb[0] + "0024" + kb[5:], kb[:14] + "Q9" + kb[16:], kb[:-1]])
             items.append(("tr31.unwrap", (kbpk, kb)))
         else:
             c = t.gen_case(rng, profile=rng.choice(["few", "few", "few", "many"]), keylen=16)
             items.append(("tr31.str", (t.impl_header(c),)))
+    rng.shuffle(items)
     # half of the items pass their byte-string arguments as mutable bytearrays (messages, keys, IVs, blocks)
     out = []
     for fn, args in items[:n]:
@@ -159,6 +176,19 @@ def run(ctx):
                          "input": {"fn": "tr31.unwrap", "args": [str(a)[:120] for a in it[1]]}, "expected": str(r)[:160], "observed": str(got)[:160]})
             if len(viol) > 20:
                 break
+    # ... and the same reused-object history against the model's fold of step (outcomes and the header left behind,
+    #     also after rejected unwraps - the model mirrors the partial updates of a failing load)
+    per_kbpk = {}
+    for it in items:
+        if it[0] == "tr31.unwrap":
+            per_kbpk.setdefault(bytes(it[1][0]), []).append(("U", it[1][1]))
+    seqs = [(k, ops[:40]) for k, ops in per_kbpk.items()]
+    both, _ = t.run_both(seqs)
+    for (k, ops), (impl, model) in zip(seqs, both):
+        if impl != model:
+            first = next((i for i, (x, y) in enumerate(zip(impl[1], model[1])) if x != y), None)
+            diffs.append({"reused KeyBlock history": "%d unwraps on one object" % len(ops), "first_diff_step": first,
+                          "impl": [impl[0][:100]] + [x[:40] for x in impl[1][:6]], "model": [model[0][:100]] + [x[:40] for x in model[1][:6]]})
     # repetition
     for it, r in zip(items[:300], ref):
         if call(it) != r:
